@@ -200,12 +200,13 @@ fn ratio_block(base: i32, len: i32) {
     kani::cover!(lhs.lt(rhs), "ratio below sqrt(1.0001)");
 }
 
-/// per-step ratio on the 16 steps starting at [MIN_TICK_INDEX, MIN_TICK_INDEX + 16) (smallest prices: largest relative rounding)
+/// per-step ratio on the 32 steps starting at [MIN_TICK_INDEX, MIN_TICK_INDEX + 32) (smallest prices: largest relative rounding;
+/// these are the ticks with price below 1.001 * 2^32 that the all-ticks Engine-M ratio obligations of props/c09.py exclude)
 // @verif prop=C09 tier=quick timeout=300
 #[kani::proof]
 #[kani::unwind(16)]
 fn c09_ratio_q_min() {
-    ratio_block(MIN_TICK_INDEX, 16)
+    ratio_block(MIN_TICK_INDEX, 32)
 }
 
 /// per-step ratio on the 16 steps starting at [-8, 8)
